@@ -21,8 +21,11 @@ from . import algebra as A
 from .algebra import Rat, Undecided
 from .model import ClassInfo, FuncInfo, Module, Project
 
-MAX_DEPTH = 60
+import sys
+
+MAX_DEPTH = 140
 MAX_ITER = 20000
+sys.setrecursionlimit(max(sys.getrecursionlimit(), 30000))
 
 
 class Raised(Exception):
@@ -310,6 +313,7 @@ class Evaluator:
         self.lenient_ext = lenient_ext  # unknown external calls yield inert opaque objects
         self.ext_calls = ext_calls or {}  # dotted -> callable(ev, *args, **kwargs), rule-supplied summaries
         self._in_getattribute = set()
+        self.class_stores = {}  # (class fq, attr) -> value assigned at run time (Cls.attr = v): shared by all instances
         self.summaries = dict(PROJECT_SUMMARIES)  # fq -> callable(ev, *args, **kwargs); rules may add
         self.colour = colour
         self.depth = 0
@@ -479,10 +483,15 @@ class Evaluator:
                 self._in_getattribute.discard(id(obj))
         if attr == "__getattribute__":
             return _NativeFn(lambda name: self.getattr(obj, name, node))
+        if obj.cinfo is None and not obj.attrs.get("__strict__"):
+            # a record is the checker's stand-in for an external object: a missing attribute is a gap of the model
+            raise Undecided(f"the model of external object {obj!r} has no attribute '{attr}'")
         raise Raised("AttributeError", f"{obj!r} has no attribute {attr}", node)
 
     def class_attr_value(self, cinfo, attr, valnode):
         key = (cinfo.fq, attr)
+        if key in self.class_stores:
+            return self.class_stores[key]
         if key not in self.mod_cache:
             env = Env(self, cinfo.module)
             self.mod_cache[key] = self.eval(valnode, env)
@@ -527,6 +536,8 @@ class Evaluator:
                 if f.is_classmethod:
                     return FuncVal(self, f, bound=ClassVal(self, cinfo), defcls=c)
                 return FuncVal(self, f, bound=obj, defcls=c)
+            if (c.fq, attr) in self.class_stores and attr not in c.attrs:
+                return self.class_stores[(c.fq, attr)]
             if attr in c.attrs:
                 v = self.class_attr_value(c, attr, c.attrs[attr])
                 if isinstance(v, FuncVal) and isinstance(v.finfo.node, ast.Lambda) and v.bound is None:
@@ -614,7 +625,8 @@ class Evaluator:
             if r is not NotImplemented:
                 return r
         if self.depth > MAX_DEPTH:
-            raise Undecided("call depth exceeded")
+            # the repository's own call chains are ~25 deep: this is unbounded recursion in the analysed code
+            raise Raised("RecursionError", f"maximum recursion depth exceeded (folded call depth {self.depth})", node)
         a = fi.node.args
         if fv.bound is not None and not fi.is_static:
             args = [fv.bound] + list(args)
@@ -869,6 +881,8 @@ class Evaluator:
                 o.attrs[t.attr] = v
             elif isinstance(o, OpaqueObj):
                 pass
+            elif isinstance(o, ClassVal):
+                self.class_stores[(o.cinfo.fq, t.attr)] = v
             else:
                 raise Undecided(f"attribute store on {type(o).__name__}")
         elif isinstance(t, ast.Subscript):
